@@ -136,14 +136,14 @@ def generate(repo=None):
     keep = [k for k in sorted(consts) if re.match(r"XMP_(PLAYER|STATE|ERROR|INTERP|MODE|MIXER|MAX|MIN|FORMAT|DSP|FLAGS|SMPCTL|CHANNEL_MUTE|END|KEY)", k)
             or k in ("DEFAULT_AMPLIFY", "DEFAULT_MIX", "SMIX_NUMVOC")]
     for k in keep:
-        L.append("abbrev %s : Int := %d" % (k, consts[k]))
+        L.append("@[simp] abbrev %s : Int := %d" % (k, consts[k]))
     L += ["", "/-- the XMP_PLAYER_* parameter numbers -/",
           "def playerParams : List Int := [" + ", ".join(str(consts[k]) for k in sorted(consts, key=lambda k: consts[k]) if k.startswith("XMP_PLAYER_")) + "]",
           "", "end Xmp.Api.Gen", "",
           "/-! numbers quoted by docs/libxmp.rst (API reference) -/",
           "namespace Xmp.Api.Doc"]
     for k in sorted(doc):
-        L.append("abbrev %s : Int := %d" % (k, doc[k]))
+        L.append("@[simp] abbrev %s : Int := %d" % (k, doc[k]))
     L += ["end Xmp.Api.Doc", ""]
     path = os.path.join(vlib.LEAN, "XmpModel", "Gen", "Exports.lean")
     changed = vlib.write_if_changed(path, "\n".join(L))
